@@ -2,6 +2,7 @@ import SJ.Proofs.StreamTypedSrc
 import SJ.Proofs.StreamTypedFault
 import SJ.Proofs.StreamTypedPrefix
 import SJ.Proofs.TypedEofEnd
+import SJ.Proofs.StreamTypedValues
 /-!
 # `StreamDeserializer` over typed item types: the stream clauses of C12, C09, C13 and C10
 
@@ -358,5 +359,119 @@ example : histIs (historyT {} (.seq (.int .u8)) 2 (start exQ)) [(.ok (.seq [.int
   decide +kernel
 example : histIs (historyT {} (.seq (.int .u8)) 2 (start (exQ.take 5))) [(.ok (.seq [.int 1]), 3), (.err .EofWhileParsingList 5, 4)] = true := by
   decide +kernel
+
+
+/-! ## C12: a stream of typed items yields exactly those items, in order, with exact offsets
+
+The typed analogue of `c12_values`. The input is `w₀ x₁ w₁ … xₙ wₙ` (`TSeg` = item bytes `x`, value `v`, whitespace `w` after
+it). There is no grammar of typed texts; an item is characterised by the item deserializer itself: `ItemOK env s P x v follow` —
+`T::deserialize` (`deTyped` at depth 0 with the full fuel, exactly the call `next()` makes) started on the first byte of `x`
+(absolute index `P`, not whitespace) with `follow` behind it returns `v` and leaves exactly `follow` unread. Each `wᵢ` is
+whitespace (possibly empty) and the delimiter rule of `peek_end_of_value` holds (`DelimOK`: an item that does not start with
+`[`, `{`, `"` is followed by the end of input or a byte of `Gen.streamDelims`). `expectedT` lists, for each item, `Some(Ok(vᵢ))`
+with `byte_offset()` just past `xᵢ`, then `None` for every further call with `byte_offset()` past the trailing whitespace
+(= the length of the input). What the theorem adds to the definition of `ItemOK` is the iterator's frame: the whitespace
+skipped before each item, the offsets, the `peek_end_of_value` test that never fires, no failure, the end.
+
+`ItemOK` is available wholesale for the texts of the C16 / C04 text-leg theorems (`Agree1`, `itemOK_of_agree1`):
+`c12_typed_values_agree` — items that `deTyped` accepts in front of every admissible follower, separated by NON-EMPTY
+whitespace. -/
+
+open SJ.Proofs.StreamTypedValues SJ.Proofs.StreamValues in
+/-- **C12 (typed items: values and offsets).** `n + k` calls of `next()` on a well-formed stream of `n` typed items
+    (no failing reader). -/
+theorem c12_typed_values (env : Env) (hflt : env.flt = false) (s : Schema) (w₀ : Bytes) (segs : List TSeg) (k : Nat)
+    (hw : Spec.Grammar.Ws w₀) (hok : TStreamOK env s w₀.length segs) :
+    historyT env s (segs.length + k) (start (w₀ ++ tsegsBytes segs)) = expectedT w₀.length segs k := by
+  have := historyT_values env hflt s k segs w₀ 0 0 hw (by simpa using hok)
+  simpa [start] using this
+
+open SJ.Proofs.StreamTypedValues in
+/-- reading `expectedT`: the `i`-th item is the `i`-th value, its offset is the length of the input up to and including that item -/
+theorem c12_typed_expected_at (segs : List TSeg) (k base : Nat) (i : Nat) (hi : i < segs.length) :
+    (expectedT base segs k)[i]? = some (.ok segs[i].v, base + (tsegsBytes (segs.take i)).length + segs[i].x.length) := by
+  induction segs generalizing base i with
+  | nil => simp at hi
+  | cons sg r ih =>
+    cases i with
+    | zero => simp [expectedT, tsegsBytes]
+    | succ j =>
+      have hj := ih (base + sg.x.length + sg.w.length) j (by simpa using hi)
+      simp only [expectedT, List.getElem?_cons_succ, hj, List.take_succ_cons, tsegsBytes, List.length_append,
+        List.getElem_cons_succ]
+      congr 3; omega
+
+open SJ.Proofs.StreamTypedValues in
+/-- … and after the items come `k` times `None`, at the offset of the end of the input -/
+theorem c12_typed_expected_end (segs : List TSeg) (k base : Nat) :
+    (expectedT base segs k).drop segs.length = List.replicate k (.none, base + (tsegsBytes segs).length) := by
+  induction segs generalizing base with
+  | nil => simp [expectedT, tsegsBytes]
+  | cons sg r ih =>
+    simp only [expectedT, List.length_cons, List.drop_succ_cons, ih, tsegsBytes, List.length_append]
+    congr 2; omega
+
+open SJ.Proofs.StreamTypedValues SJ.Proofs.StreamValues in
+/-- the stream conditions from the text-leg agreement: every item text is accepted with its value in front of every
+    admissible follower (`Agree1`), starts on a non-whitespace byte, and is followed by non-empty whitespace (the last one
+    by any whitespace) -/
+def AgreeStream (env : Env) (s : Schema) : List TSeg → Prop
+  | [] => True
+  | sg :: r => (∃ b tl, sg.x = b :: tl ∧ Machine.isWs b = false) ∧
+      SJ.Proofs.Typed.Agree1 (deTyped env (Schema.size s + 1) 0 s) (.ok sg.v) sg.x ∧
+      Spec.Grammar.Ws sg.w ∧ (r ≠ [] → sg.w ≠ []) ∧ AgreeStream env s r
+
+open SJ.Proofs.StreamTypedValues SJ.Proofs.StreamValues in
+theorem agreeStream_ok (env : Env) (s : Schema) : ∀ (segs : List TSeg) (P : Nat), AgreeStream env s segs →
+    TStreamOK env s P segs := by
+  intro segs
+  induction segs with
+  | nil => intro _ _; trivial
+  | cons sg r ih =>
+    intro P ⟨hhead, hag, hws, hne, hrest⟩
+    -- what follows the item is empty or starts with a whitespace byte
+    have hfol : sg.w ++ tsegsBytes r = [] ∨ ∃ c tl, sg.w ++ tsegsBytes r = c :: tl ∧ Machine.isWs c = true := by
+      cases hw : sg.w with
+      | nil =>
+        cases r with
+        | nil => left; simp [tsegsBytes]
+        | cons a r' => exact absurd hw (hne (by simp))
+      | cons c tl =>
+        right
+        refine ⟨c, tl ++ tsegsBytes r, by simp, ?_⟩
+        rw [hw] at hws
+        simp only [Spec.Grammar.Ws, List.all_cons, Bool.and_eq_true] at hws
+        rw [SJ.Proofs.Complete.isWs_eq]; exact hws.1
+    refine ⟨itemOK_of_agree1 env s _ _ _ P hhead hag ?_, hws, ?_, ih _ hrest⟩
+    · rcases hfol with h | ⟨c, tl, h, hc⟩
+      · exact Or.inl h
+      · exact Or.inr ⟨c, tl, h, Or.inr (Or.inr (Or.inr (Or.inr hc)))⟩
+    · rcases hfol with h | ⟨c, tl, h, hc⟩
+      · exact Or.inr (Or.inl h)
+      · refine Or.inr (Or.inr ⟨c, tl, h, ?_⟩)
+        rcases SJ.Proofs.Typed.isWs_cases hc with rfl | rfl | rfl | rfl <;> decide
+
+open SJ.Proofs.StreamTypedValues in
+/-- **C12 (typed items), for the texts of the C16 / C04 text leg.** -/
+theorem c12_typed_values_agree (env : Env) (hflt : env.flt = false) (s : Schema) (w₀ : Bytes) (segs : List TSeg) (k : Nat)
+    (hw : Spec.Grammar.Ws w₀) (hok : AgreeStream env s segs) :
+    historyT env s (segs.length + k) (start (w₀ ++ tsegsBytes segs)) = expectedT w₀.length segs k :=
+  c12_typed_values env hflt s w₀ segs k hw (agreeStream_ok env s segs _ hok)
+
+/-! non-vacuity: ` [true] [false,true]x`-like stream of `Vec<bool>` items: ` [true][false ,true] ` (the two items touch: both
+    self-delineated) yields the two vectors at offsets 7 and 20, then `None` at 21 -/
+section
+open SJ.Proofs.StreamTypedValues
+def exTSegs : List TSeg :=
+  [⟨[0x5b, 0x74, 0x72, 0x75, 0x65, 0x5d], .seq [.bool true], []⟩,
+   ⟨[0x5b, 0x66, 0x61, 0x6c, 0x73, 0x65, 0x20, 0x2c, 0x74, 0x72, 0x75, 0x65, 0x5d], .seq [.bool false, .bool true], [0x20]⟩]
+theorem exTSegs_ok : TStreamOK {} (.seq .bool) 1 exTSegs :=
+  ⟨⟨⟨0x5b, _, rfl, by decide⟩, rfl⟩, by decide, Or.inl ⟨0x5b, _, rfl, by decide⟩,
+   ⟨⟨0x5b, _, rfl, by decide⟩, rfl⟩, by decide, Or.inl ⟨0x5b, _, rfl, by decide⟩, trivial⟩
+example : historyT {} (.seq .bool) (2 + 2) (start ([0x20] ++ tsegsBytes exTSegs)) = expectedT 1 exTSegs 2 :=
+  c12_typed_values {} rfl (.seq .bool) [0x20] exTSegs 2 (by decide) exTSegs_ok
+example : histIs (expectedT 1 exTSegs 2)
+    [(.ok (.seq [.bool true]), 7), (.ok (.seq [.bool false, .bool true]), 20), (.none, 21), (.none, 21)] = true := by decide +kernel
+end
 
 end SJ.Props.StreamTyped
